@@ -170,6 +170,22 @@ def layout_gen(profile, n_quick, n_thorough, opts=None, isa=False):
     return gen
 
 
+def layout_scenario_tie(name, fn, n_quick, n_thorough, opts=None):
+    """a targeted scenario generator (harness/scenarios.py) under random layout"""
+    def gen(rng, tier):
+        out = []
+        for _ in range(n_quick if tier == 'quick' else n_thorough):
+            c = fn(rng, tier)
+            c['layout'] = rng.randrange(1 << 30)
+            if opts:
+                c['layout_opts'] = opts
+            out.append(c)
+        return out
+    return Tie(name=name, imports=['Base', 'Program'], run_def='run_prog', eqb='obs_prog_eqb', gen=gen,
+               impl=sysgen.impl_assemble, case_term=sysgen.case_term, obs_term=sysgen.obs_term, nontrivial=nontrivial,
+               classify=lambda c: c.get('fault') or 'scenario', shard=60, timeout=60)
+
+
 def layout_tie(profile='general', n_quick=250, n_thorough=4000, opts=None, name='layout'):
     """the model knows nothing about layout: the implementation, fed a randomly laid-out text, must still agree with it"""
     return Tie(name=name, imports=['Base', 'Program'], run_def='run_prog', eqb='obs_prog_eqb',
